@@ -56,5 +56,6 @@ SEEDED = [
     ("C13-5", "C13-KEY"),
     ("C13-7", "C13-DIM"),
     ("C13-8", "C13-TRIM"),
+    ("C13-11", "C13-ROWS"),
 ]
 MUTANTS = list(MUTANTS) + [_P("seed-" + sid, _os.path.join(_SEEDS, sid, "patch.diff"), rule) for sid, rule in SEEDED if _os.path.exists(_os.path.join(_SEEDS, sid, "patch.diff"))]
